@@ -34,7 +34,7 @@ from fim.view_only_dict import ViewOnlyDict
 
 from .model_element import ModelElement, ElementType, TopologyException
 
-from fim.graph.abc_property_graph import ABCPropertyGraph
+from fim.graph.abc_property_graph import ABCPropertyGraph, PropertyGraphQueryException
 from fim.user.interface import Interface, InterfaceType
 from fim.user.link import Link, LinkType
 from fim.slivers.network_service import NetworkServiceSliver, ServiceType, NSLayer, ERO, PathInfo, MirrorDirection
@@ -602,13 +602,32 @@ class NetworkService(ModelElement):
                                                                       iname=name)
         return Interface(name=name, node_id=node_id, topo=self.topo)
 
+    def __current_interfaces(self) -> List[Interface]:
+        """
+        The interfaces the model holds for this service now: another handle of the same service
+        may have connected or removed interfaces since this one was made, so the list the handle
+        keeps is brought up to date before it is reported.
+        :return:
+        """
+        try:
+            ids = self.topo.graph_model.get_all_ns_or_link_connection_points(link_id=self.node_id)
+        except PropertyGraphQueryException:
+            # the service itself is no longer in the model
+            return self._interfaces
+        current = list()
+        for iff in ids:
+            _, props = self.topo.graph_model.get_node_properties(node_id=iff)
+            current.append(Interface(node_id=iff, topo=self.topo, name=props[ABCPropertyGraph.PROP_NAME]))
+        self._interfaces = current
+        return self._interfaces
+
     def __list_interfaces(self) -> ViewOnlyDict:
         """
         List all interfaces of the network service as a dictionary
         :return:
         """
         ret = dict()
-        for intf in self._interfaces:
+        for intf in self.__current_interfaces():
             ret[intf.name] = intf
         return ViewOnlyDict(ret)
 
@@ -617,7 +636,7 @@ class NetworkService(ModelElement):
         Return a list of names of interfaces of network service
         :return:
         """
-        return tuple(self._interfaces)
+        return tuple(self.__current_interfaces())
 
     @property
     def interface_list(self):
